@@ -154,6 +154,9 @@ class Fresh:
             return (True, True, "cycle")
         defs = self.assigns.get(name, [])
         if not defs:
+            a = getattr(self.node, "args", None)
+            if a is not None and ((a.kwarg is not None and a.kwarg.arg == name) or (a.vararg is not None and a.vararg.arg == name)):
+                return (True, False, "the call's own %s" % ("**" + name if a.kwarg is not None and a.kwarg.arg == name else "*" + name))
             if name in self.params:
                 return (False, False, "parameter %s" % name)
             return (False, False, "free variable %s" % name)
@@ -168,6 +171,9 @@ class Fresh:
                 cands = [d for d in defs if d[1].lineno <= at_stmt.lineno] or defs
                 if name in self.params:
                     return (False, False, "parameter %s (may be unassigned here)" % name)
+        inner = self._enclosing_loop_def(name, defs, at_stmt)
+        if inner is not None:
+            cands = [inner]
         cf, ef, why = True, True, []
         for v, st in cands:
             if isinstance(v, ast.AST):
@@ -193,7 +199,41 @@ class Fresh:
                 pv = (False, False, str(v[0]))
             cf, ef = cf and pv[0], ef and pv[1]
             why.append("%s := %s" % (name, pv[2]))
+        if ef:
+            # what is put into the container later is part of its elements
+            for n in body_nodes(self.node):
+                if isinstance(n, ast.Call) and isinstance(n.func, ast.Attribute) and isinstance(n.func.value, ast.Name) and n.func.value.id == name and n.args:
+                    if n.func.attr in ("append", "add", "insert", "appendleft"):
+                        pv = self.prov(n.args[-1], _stmt_of(self.node, n) or n, depth + 1, seen | {name})
+                        if not pv[0]:
+                            ef = False
+                            why.append("%s.%s(%s: %s)" % (name, n.func.attr, norm(n.args[-1])[:40], pv[2]))
+                    elif n.func.attr in ("extend", "update", "extendleft"):
+                        pv = self.prov(n.args[0], _stmt_of(self.node, n) or n, depth + 1, seen | {name})
+                        if not pv[1]:
+                            ef = False
+                            why.append("%s.%s(%s: %s)" % (name, n.func.attr, norm(n.args[0])[:40], pv[2]))
         return (cf, ef, "; ".join(why))
+
+    def _enclosing_loop_def(self, name, defs, at_stmt):
+        """a use inside the body of a for loop that binds the name sees that binding, unless the body rebinds the name"""
+        if at_stmt is None:
+            return None
+        best = None
+        for d in defs:
+            v, st = d
+            if not isinstance(st, (ast.For, ast.AsyncFor)) or not (isinstance(v, tuple) and v[0] in ("loop", "unpack", "unpack*")):
+                continue
+            inside = any(at_stmt is x for b in st.body for x in ast.walk(b))
+            if inside and (best is None or st.lineno > best[1].lineno):
+                best = d
+        if best is None:
+            return None
+        body = {id(x) for b in best[1].body for x in ast.walk(b)}
+        for v, st in defs:
+            if (v, st) != best and id(st) in body:
+                return None
+        return best
 
 
 def writes_in(fi, program=None):
